@@ -18,6 +18,18 @@ Theorem C55_request_roundtrip : forall ps body,
 Proof. exact request_roundtrip. Qed.
 Print Assumptions C55_request_roundtrip.
 
+(* The two halves under the names used in DESIGN.md. *)
+Theorem C55_pairs_roundtrip : forall ps body,
+  Forall (fun kv => blen (fst kv) < 2^31 /\ blen (snd kv) < 2^31) ps ->
+  option_map fst (spec_request (do_written ps body)) = Some ps.
+Proof. exact pairs_roundtrip. Qed.
+Print Assumptions C55_pairs_roundtrip.
+Theorem C55_body_roundtrip : forall ps body,
+  Forall (fun kv => blen (fst kv) < 2^31 /\ blen (snd kv) < 2^31) ps ->
+  option_map snd (spec_request (do_written ps body)) = Some body.
+Proof. exact body_roundtrip. Qed.
+Print Assumptions C55_body_roundtrip.
+
 (* C55_payload_le_65535: every record of the PARAMS and STDIN streams carries at most 65500 <= 65535 bytes,
    so the 16-bit contentLength field never wraps. *)
 Theorem C55_payload_le_65535 : forall ps body,
